@@ -116,16 +116,159 @@ macro_rules! sample_harness {
         }
     };
 }
-// @verif property=C17 class=bounded bound="0 candidates, k in 0..=2, weights any f64 incl. NaN/inf/negative, every random draw in [0,1)" fns=WeightedSampler::sample_nodes uses=check_sample,sample_harness unwindset="memcmp:33" tier=quick,thorough panic=violation
+// @verif property=C17 class=bounded bound="0 candidates, k in 0..=2, weights any f64 incl. NaN/inf/negative, every random draw in [0,1)" fns=WeightedSampler::sample_nodes uses=check_sample,sample_harness unwindset="memcmp:33" tier=parked panic=violation
 sample_harness!(c17_sample_nodes_0, 0);
-// @verif property=C17 class=bounded bound="1 candidates, k in 0..=3, weights any f64 incl. NaN/inf/negative, every random draw in [0,1)" fns=WeightedSampler::sample_nodes uses=check_sample,sample_harness unwindset="memcmp:33" tier=quick,thorough panic=violation
+// @verif property=C17 class=bounded bound="1 candidates, k in 0..=3, weights any f64 incl. NaN/inf/negative, every random draw in [0,1)" fns=WeightedSampler::sample_nodes uses=check_sample,sample_harness unwindset="memcmp:33" tier=parked panic=violation
 sample_harness!(c17_sample_nodes_1, 1);
-// @verif property=C17 class=bounded bound="2 candidates, k in 0..=4, weights any f64 incl. NaN/inf/negative, every random draw in [0,1)" fns=WeightedSampler::sample_nodes uses=check_sample,sample_harness unwindset="memcmp:33" tier=quick,thorough panic=violation
+// @verif property=C17 class=bounded bound="2 candidates, k in 0..=4, weights any f64 incl. NaN/inf/negative, every random draw in [0,1)" fns=WeightedSampler::sample_nodes uses=check_sample,sample_harness unwindset="memcmp:33" tier=parked panic=violation
 sample_harness!(c17_sample_nodes_2, 2);
-// @verif property=C17 class=bounded bound="3 candidates, k in 0..=5, weights any f64 incl. NaN/inf/negative, every random draw in [0,1)" fns=WeightedSampler::sample_nodes uses=check_sample,sample_harness unwindset="memcmp:33" tier=quick,thorough panic=violation
+// @verif property=C17 class=bounded bound="3 candidates, k in 0..=5, weights any f64 incl. NaN/inf/negative, every random draw in [0,1)" fns=WeightedSampler::sample_nodes uses=check_sample,sample_harness unwindset="memcmp:33" tier=parked panic=violation
 sample_harness!(c17_sample_nodes_3, 3);
-// @verif property=C17 class=bounded bound="4 candidates, k in 0..=6, weights any f64 incl. NaN/inf/negative, every random draw in [0,1)" fns=WeightedSampler::sample_nodes uses=check_sample,sample_harness unwindset="memcmp:33" tier=thorough panic=violation
+// @verif property=C17 class=bounded bound="4 candidates, k in 0..=6, weights any f64 incl. NaN/inf/negative, every random draw in [0,1)" fns=WeightedSampler::sample_nodes uses=check_sample,sample_harness unwindset="memcmp:33" tier=parked panic=violation
 sample_harness!(c17_sample_nodes_4, 4);
+
+
+// ---------------------------------------------------------------------------------------------
+// NATIVE FAILING-INPUT SEARCH for C17 (pairs with the Verus unit `placement`): an executable reading of
+// the property against the real validate_selection / sample_nodes / select_nodes. A hit is a panic line
+// starting with VERIF-SEARCH-HIT; no hit proves nothing.
+// ---------------------------------------------------------------------------------------------
+#[cfg(test)]
+mod verif_search {
+    use super::*;
+    use crate::placement::PlacementStrategy;
+
+    struct Rng(u64);
+    impl Rng {
+        fn next(&mut self) -> u64 {
+            self.0 ^= self.0 << 13;
+            self.0 ^= self.0 >> 7;
+            self.0 ^= self.0 << 17;
+            self.0
+        }
+        fn below(&mut self, n: u64) -> u64 {
+            self.next() % n
+        }
+    }
+    const REGIONS: [NetworkRegion; 4] = [NetworkRegion::Europe, NetworkRegion::NorthAmerica, NetworkRegion::AsiaPacific, NetworkRegion::Unknown];
+
+    /// the three constraints, read off the property (2 per region, 3 per autonomous system, 50 km)
+    fn violates(sel: &[(NodeId, GeographicLocation, u32, NetworkRegion)], max_region: usize, max_asn: usize, min_km: f64) -> Option<String> {
+        for (i, a) in sel.iter().enumerate() {
+            for (j, b) in sel.iter().enumerate() {
+                if i != j && a.1.distance_km(&b.1) < min_km {
+                    return Some(format!("entries {} and {} are {:.1} km apart", i, j, a.1.distance_km(&b.1)));
+                }
+            }
+            if sel.iter().filter(|x| x.3 == a.3).count() > max_region {
+                return Some(format!("region {:?} holds {} entries", a.3, sel.iter().filter(|x| x.3 == a.3).count()));
+            }
+            if sel.iter().filter(|x| x.2 == a.2).count() > max_asn {
+                return Some(format!("autonomous system {} holds {} entries", a.2, sel.iter().filter(|x| x.2 == a.2).count()));
+            }
+        }
+        None
+    }
+
+    fn loc(r: &mut Rng, spread: bool) -> GeographicLocation {
+        // a coarse grid (far apart) or a cluster (a few km apart)
+        if spread {
+            GeographicLocation { latitude: -60.0 + 10.0 * r.below(13) as f64, longitude: -170.0 + 20.0 * r.below(17) as f64 }
+        } else {
+            GeographicLocation { latitude: 48.0 + 0.1 * r.below(12) as f64, longitude: 11.0 + 0.1 * r.below(12) as f64 }
+        }
+    }
+
+    #[test]
+    fn verif_search_c17() {
+        let seed: u64 = std::env::var("VERIF_SEED").ok().and_then(|s| s.parse().ok()).unwrap_or(0);
+        let rounds: usize = std::env::var("VERIF_SEARCH_ROUNDS").ok().and_then(|s| s.parse().ok()).unwrap_or(400);
+        let mut r = Rng(0x9e37_79b9_7f4a_7c15 ^ seed.wrapping_mul(0x1000_0000_01b3) | 1);
+        let enforcer = DiversityEnforcer::new();
+        if enforcer.max_nodes_per_region != 2 || enforcer.max_nodes_per_asn != 3 || enforcer.min_geographic_distance / 2.0 != 50.0 {
+            panic!("VERIF-SEARCH-HIT C17/config/default_caps_are_two_per_region_and_three_per_autonomous_system region={} asn={} min_km={}", enforcer.max_nodes_per_region, enforcer.max_nodes_per_asn, enforcer.min_geographic_distance / 2.0);
+        }
+        // 1. validate_selection: an accepted selection satisfies the three constraints
+        for round in 0..rounds * 5 {
+            let n = r.below(10) as usize;
+            let spread = r.below(3) != 0;
+            let many_regions = r.below(2) == 0;
+            let sel: Vec<(NodeId, GeographicLocation, u32, NetworkRegion)> = (0..n).map(|i| {
+                let mut l = loc(&mut r, spread);
+                if spread { l.latitude += i as f64 * 0.7; }     // distinct grid points stay far apart; equal ones are 70+ km apart
+                (nid(i as u8), l, if many_regions { 100 + r.below(6) as u32 } else { 100 + r.below(2) as u32 }, REGIONS[r.below(if many_regions { 4 } else { 2 }) as usize])
+            }).collect();
+            if enforcer.validate_selection(&sel).is_ok() {
+                if let Some(why) = violates(&sel, 2, 3, 50.0) {
+                    let what = if why.starts_with("entries") { "accepted_only_if_no_two_nodes_are_closer_than_half_the_configured_distance" } else if why.starts_with("region") { "accepted_only_if_no_region_holds_more_than_its_cap" } else { "accepted_only_if_no_autonomous_system_holds_more_than_its_cap" };
+                    panic!("VERIF-SEARCH-HIT C17/validate/{} round={} accepted a selection of {} entries in which {}: {:?}", what, round, n, why, sel.iter().map(|x| (x.1.latitude, x.1.longitude, x.2, x.3)).collect::<Vec<_>>());
+                }
+            }
+        }
+        // 2. sample_nodes: k names taken from the candidates, each position once
+        let mut sampler = WeightedSampler::new();
+        for round in 0..rounds {
+            let n = 1 + r.below(8) as usize;
+            let cands: Vec<(NodeId, f64)> = (0..n).map(|i| (nid(i as u8), match r.below(6) { 0 => 1e-9, 1 => 1e9, _ => 0.1 + r.below(100) as f64 / 10.0 })).collect();
+            let k = r.below(n as u64 + 2) as usize;
+            match sampler.sample_nodes(&cands, k) {
+                Ok(v) => {
+                    let distinct = v.iter().enumerate().all(|(i, a)| v.iter().skip(i + 1).all(|b| a != b));
+                    if v.len() != k || k > n || !distinct || v.iter().any(|x| !cands.iter().any(|c| c.0 == *x)) {
+                        panic!("VERIF-SEARCH-HIT C17/sample/k_names_taken_from_the_candidates_each_once round={} candidates={} k={} returned={} distinct={}", round, n, k, v.len(), distinct);
+                    }
+                }
+                Err(_) => {
+                    if k <= n {
+                        panic!("VERIF-SEARCH-HIT C17/sample/an_error_only_when_there_are_too_few_candidates_or_a_bad_weight round={} candidates={} k={}", round, n, k);
+                    }
+                }
+            }
+        }
+        // 3. select_nodes: a decision names exactly k distinct candidates satisfying the constraints, or the call fails
+        let rt = tokio::runtime::Builder::new_current_thread().enable_all().build().expect("runtime");
+        rt.block_on(async {
+            let trust = crate::adaptive::trust::EigenTrustEngine::new(std::collections::HashSet::new());
+            let perf = crate::adaptive::performance::PerformanceMonitor::new();
+            for round in 0..rounds {
+                let n = 1 + r.below(14) as usize;
+                let spread = r.below(4) != 0;
+                let many = r.below(3) != 0;
+                let mut meta = HashMap::new();
+                let mut cands = HashSet::new();
+                for i in 0..n {
+                    let mut l = loc(&mut r, spread);
+                    if spread { l.latitude += i as f64 * 0.7; }
+                    meta.insert(nid(i as u8), (l, if many { 100 + i as u32 / 2 } else { 100 + r.below(2) as u32 }, REGIONS[if many { i % 4 } else { r.below(2) as usize }]));
+                    cands.insert(nid(i as u8));
+                }
+                let k = r.below(n as u64 + 2) as u8;
+                let mut strategy = WeightedPlacementStrategy::new(PlacementConfig::default());
+                match strategy.select_nodes(&cands, k, &trust, &perf, &meta).await {
+                    Ok(d) => {
+                        let v = &d.selected_nodes;
+                        let distinct = v.iter().enumerate().all(|(i, a)| v.iter().skip(i + 1).all(|b| a != b));
+                        if v.len() != k as usize {
+                            panic!("VERIF-SEARCH-HIT C17/select/a_decision_names_exactly_the_requested_number_of_nodes round={} candidates={} k={} named={}", round, n, k, v.len());
+                        }
+                        if !distinct {
+                            panic!("VERIF-SEARCH-HIT C17/select/no_node_is_named_twice round={} candidates={} k={}", round, n, k);
+                        }
+                        if v.iter().any(|x| !cands.contains(x)) {
+                            panic!("VERIF-SEARCH-HIT C17/select/every_named_node_is_one_of_the_supplied_candidates round={} candidates={} k={}", round, n, k);
+                        }
+                        let sel: Vec<_> = v.iter().map(|x| { let m = meta[x]; (x.clone(), m.0, m.1, m.2) }).collect();
+                        if let Some(why) = violates(&sel, 2, 3, 50.0) {
+                            let what = if why.starts_with("entries") { "no_two_named_nodes_are_closer_than_half_the_configured_distance" } else if why.starts_with("region") { "no_region_holds_more_named_nodes_than_its_cap" } else { "no_autonomous_system_holds_more_named_nodes_than_its_cap" };
+                            panic!("VERIF-SEARCH-HIT C17/select/{} round={} candidates={} k={}: {}", what, round, n, k, why);
+                        }
+                    }
+                    Err(_) => {}
+                }
+            }
+        });
+    }
+}
 
 #[cfg(test)]
 include!("/verif/.build/replay/placement_algorithms.rs");
